@@ -51,6 +51,10 @@ Proof.
   exists cfE, w_ephemeral_single_rev. intros E. destruct ephemeral_single_rev_differs as [A B].
   rewrite E in A. rewrite A in B. discriminate B.
 Qed.
+Theorem C23_cas_empty_epoch_refuted : exists ops, redis_map_run cfP ops <> mem_map_run cfP ops.
+Proof.
+  exists w_cas_empty_epoch. intros E. destruct cas_empty_epoch_differs as [A B]. rewrite E in A. rewrite A in B. discriminate B.
+Qed.
 (* after Clear, ReadStream re-creates the channel with the SAME epoch (the node id) on Redis *)
 Theorem C23_clear_epoch_reuse_refuted :
   exists ops, nth 0 (redis_map_run cfP ops) MErr = nth 2 (redis_map_run cfP ops) MErr /\
@@ -73,8 +77,11 @@ Proof. exact agree_example. Qed.
      keys_okb     no two channel names collide through the key scheme (finding map-key-collision)
      length ops <= StreamSize   neither side trims (finding map-stream-approx-trim beyond that)
      run_ok       per operation, relative to the memory model's state when it is issued:
-       Publish    keyed or unkeyed; delta allowed; no idempotency key, version, key mode or
-                  ExpectedPosition (stage B); Score >= 0; new-epoch string without ':'
+       Publish    keyed or unkeyed; delta allowed; no idempotency key or version (testing only); Score >= 0;
+                  new-epoch string without ':'; a keyed Publish may carry any KeyMode (suppressions
+                  key_exists / key_not_found) and an ExpectedPosition with offset < 2^53 and a NON-EMPTY
+                  epoch (suppression position_mismatch with the current entry; finding
+                  map-cas-empty-epoch otherwise); an unkeyed one carries neither
        Remove     non-empty key, no idempotency key / ExpectedPosition, channel exists
                   (finding map-remove-missing-channel)
        ReadStream Limit < 2^31; the epoch both sides would create is the same string (epochs are
@@ -99,6 +106,12 @@ Print Assumptions C23_agree_core_partial.
 Definition w_core : list mop :=
   [rd_state "a" "N0"; pub "a" "k1" "d1" "N1"; pub "a" "" "d2" "N2";
    MPublish "a" "k2" (mkMP "" 0 "d3" true 0 "" 7 "" false None) "N3" 1000; pub "a" "k1" "d4" "N4";
+   MPublish "a" "k1" (mkMP "" 0 "x1" false 0 "" 0 "if_new" true None) "N40" 1000;
+   MPublish "a" "k9" (mkMP "" 0 "x2" false 0 "" 0 "if_exists" false None) "N41" 1000;
+   MPublish "a" "k2" (mkMP "" 0 "x3" false 0 "" 0 "" false (Some (2%N, "N0"))) "N42" 1000;
+   MPublish "a" "k2" (mkMP "" 0 "x4" false 0 "" 0 "" false (Some (3%N, "zz"))) "N43" 1000;
+   MPublish "a" "k8" (mkMP "" 0 "x5" false 0 "" 0 "" false (Some (3%N, "N0"))) "N44" 1000;
+   MPublish "a" "k2" (mkMP "" 0 "d3" true 0 "" 7 "if_exists" false (Some (3%N, "N0"))) "N45" 1000;
    rd_state "a" "N5"; MReadState "a" (Some (3%N, "N0")) 2 "" false "N6" "N6"; MReadState "a" (Some (3%N, "zz")) 2 "" false "N6" "N6";
    MReadState "a" None 0 "k1" true "N7" "N7"; MReadState "a" None 0 "" false "N8" "N8";
    MRemove "a" "k1" ro "N9" 1000; MRemove "a" "zz" ro "N10" 1000; rd_stream "a" "N11";
@@ -110,7 +123,11 @@ Example C23_core_domain_example :
   cfg_ok cfP = true /\ keys_okb (chans w_core) = true /\ run_ok cfP mm_init w_core = true /\
   (Z.of_nat (List.length w_core) <= mc_size cfP)%Z /\
   redis_map_run cfP w_core = rm_run map_shallow cfP rinit w_core /\
-  nth 12 (mem_map_run cfP w_core) MErr =
+  firstn 6 (skipn 5 (mem_map_run cfP w_core)) =
+    [MUpd 4 "N0" true "key_exists" None; MUpd 4 "N0" true "key_not_found" None;
+     MUpd 4 "N0" true "position_mismatch" (Some (3%N, "d3")); MUpd 4 "N0" true "position_mismatch" (Some (3%N, "d3"));
+     MUpd 4 "N0" true "position_mismatch" None; MUpd 5 "N0" false "" None] /\
+  nth 18 (mem_map_run cfP w_core) MErr =
     MStream [(1%N, "k1", "d1", false); (2%N, "", "d2", false); (3%N, "k2", "d3", false); (4%N, "k1", "d4", false);
-             (5%N, "k1", "", true)] 5 "N0".
+             (5%N, "k2", "d3", false); (6%N, "k1", "", true)] 6 "N0".
 Proof. vm_compute. repeat split; try reflexivity; discriminate. Qed.
